@@ -56,6 +56,7 @@ void run_finish(const char* status, int code, const char* why) {
     uint64_t edges = 0; J te = J::arr(); for (auto* t : R.tasks) { edges += t->edges; te.push((long)t->edges); }
     r.set("edges", (long)edges); r.set("task_edges", te); r.set("cov", cov_count());
     r.set("snaps", (long)g_fs.snaps.size());
+    r.set("mutex_created", R.mutex_created); r.set("mutex_locks", R.mutex_locks); r.set("mutex_blocked", R.mutex_blocked); r.set("rng_draws", R.rng_draws);
     r.set("trace", R.trace);
     if (R.cur >= 0 && R.cur < (int)R.tasks.size()) { r.set("cur_tid", R.cur); r.set("cur_op", R.tasks[R.cur]->cur_op); }
     for (auto& kv : R.extra.o) r.set(kv.first, kv.second);
